@@ -59,6 +59,40 @@ class Sut(object):
         self.local = Counter()  # per-case counters (features)
         self.dead = False
 
+    @classmethod
+    def attach(cls, traph, stats=None):
+        """Wrap an index built by someone else (the repository's tests): the model
+        is reconstructed from the raw bytes by the independent decoder, so the
+        audits compare API answers with the decoded state (relational auditor).
+        The RAM-only creation rules are unknown: rule-dependent audits do not apply."""
+        self = cls.__new__(cls)
+        self.cfg = {"backend": "memory" if getattr(traph, "in_memory", False) else "file", "default": "domain", "rules": [],
+                    "encoding": getattr(traph, "encoding", "utf-8")}
+        self.scratch = None
+        self.folder = getattr(traph, "folder", None)
+        self.own_folder = False
+        self.t = traph
+        self.stats = stats if stats is not None else Counter()
+        self.opcount = Counter()
+        self.local = Counter()
+        self.dead = False
+        self.last_report = None
+        a, b = M.store_bytes(traph)
+        dec = decode(a, b)
+        self.attach_errors = list(dec.errors)
+        m = Model(RX["domain"], {})
+        m.nodes = set(dec.lrus)
+        m.pages = dict(dec.pages)
+        m.we = dict(dec.we)
+        m.flags = set(dec.rules)
+        m.links = Counter(dec.out)
+        self.m = m
+        ids = set(dec.we.values())
+        self.idmap = {i: i for i in ids}
+        self.rid = {i: i for i in ids}
+        self.max_id = dec.last_id or 0
+        return self
+
     # ------------------------------------------------------------------ utils
     def close(self):
         try:
